@@ -544,11 +544,12 @@ def build_cases(tier="quick"):
     ref = [Case(f"{PROP}/solve.solve_low_level#query-of-this-path", c.case, c.harness, replay=c.replay, sources=c.sources) for c in c05.timeout_cases()]
     # a path whose failure was stored before it was activated is solved with its pending condition (C13's unit); the named
     # assertions written by dump() switch every condition on only if to_smt2 exports every id (C16's unit)
-    from contracts import c13, c16
+    from contracts import c13, c15, c16
     from contracts.common import rewrap
 
     ref += rewrap(PROP, c13.delayed_error_cases(), "pending-condition-in-query")
     ref += rewrap(PROP, c16.pin_cases(), "every-condition-named", lambda c: "to_smt2" in c.unit)
+    ref += rewrap(PROP, c15.slice_cases(), "sliced-state-keeps-its-constraints")
     return to_smt2_cases() + path_growth_cases() + dump_cases() + refine_ctx_cases() + ref
 
 
